@@ -1,16 +1,11 @@
 import DdoModel.Proto
 import DdoModel.Gap
 import DdoModel.Width
+import DdoModel.Engines.Store
 /-! Driver engines for the small models: `gap` (C17) and `width` (C13 combinators). -/
 namespace Ddo.Engines
 open Ddo.Proto
 
-/-- result line of an engine: agreement with the model, property predicate, model output -/
-structure Res where
-  agree : Bool
-  phi : Bool
-  model : String
-  note : String := ""
 
 def parseFOut : List String → Option FOut
   | ["nan"] => some .nan
